@@ -177,14 +177,16 @@ PROPS["C12"] = dict(
 )
 PROPS["C07"] = dict(
     module="UpfVerif.Props.C07",
-    streams=[_ctl(9, "mix"), dict(name="malformed", args=["net=200"], shards=4, shards_thorough=12, seed_per_shard=True, timeout=600, timeout_thorough=3000)],
+    streams=[_ctl(9, "mix"), dict(name="malformed", args=["net=200"], shards=4, shards_thorough=12, seed_per_shard=True, timeout=600, timeout_thorough=3000),
+             dict(name="drv", shards=2, shards_thorough=4, seed_per_shard=True)],
     rule="ctl 'mix' (junk, truncated, unknown-type datagrams inside valid histories, SEIDs at all boundary classes) + malformed stream: structure-aware mutations of "
-         "valid PFCP messages (header fields, IE lengths, nested IEs, flag octets, ids) after valid prefixes, with the no-op and gtp5g IE decoding paths; liveness probe after each datagram",
+         "valid PFCP messages (header fields, IE lengths, nested IEs, flag octets, ids) after valid prefixes, liveness probe after each datagram; drv: rule IEs (well-formed, C-TAG/S-TAG outer header creation, damaged copies) through the real gtp5g driver",
     trusted_base=_CTL_TB, assumptions=_CTL_ASSUME,
     level_text="PARTIAL. Kernel-checked layer 1 (Props/C07.lean): all table accesses in range for every SEID in every reachable state, step total, heartbeat always answered, "
                "unaddressed sessions intact. Layer 2 (go-pfcp decoding) is searched, not proved: malformed-datagram stream with panic/exit hooks and heartbeat probe.",
-    level_note="Not proved: go-pfcp message/IE decoders and go-gtp5gnl (third-party); the gtp5g driver's IE walk is exercised through the simulated netlink kernel. "
-               "Known finding: go-pfcp OuterHeaderCreation C-TAG/S-TAG decode panic (dependency).",
+    level_note="Not proved: go-pfcp message/IE decoders and go-gtp5gnl (third-party). The gtp5g driver's IE walk is searched too: S-drv hands the real Gtp5g.Create*/Update* every rule IE of its generator, "
+               "Outer Header Creation IEs with C-TAG / S-TAG, and a damaged copy (truncated, flipped, lengths changed) of 40% of the rule IEs — a fault there is a C07 failure. "
+               "Repaired (fix 715caca): go-pfcp's OuterHeaderCreation accessor panics on a C-TAG / S-TAG field; one Create FAR took the UPF down.",
 )
 
 PROPS["C16"] = dict(
